@@ -10,7 +10,7 @@ Require Import BB.Gen.Grammar BB.Gen.TablesParser BB.Gen.TablesTypes BB.Gen.Tabl
 Require Import BB.Proofs.StrLemmas BB.Proofs.PreParseInvariance BB.Proofs.PreParseTrailing.
 Require Import BB.Proofs.Totality BB.Proofs.PegEscape BB.Proofs.EscapeLossless BB.Proofs.PegPlain BB.Proofs.EscapedTextParses BB.Proofs.UnparseText.
 Require Import BB.Proofs.PegLine BB.Proofs.WrittenText BB.Proofs.LineRule BB.Proofs.PlainLine BB.Proofs.PostConserve BB.Proofs.PlainLineConvert.
-Require Import BB.Proofs.ParagraphRoundTrip BB.Proofs.HierElement BB.Proofs.HierElementConvert.
+Require Import BB.Proofs.ParagraphRoundTrip BB.Proofs.HierElement BB.Proofs.HierElementConvert BB.Proofs.HierNoHeading BB.Proofs.HierNoHeadingConvert.
 Open Scope N_scope.
 
 Definition NUM_T : str := of_string "num".
@@ -217,6 +217,101 @@ Proof.
     apply negb_true_iff in H. apply negb_true_iff in Hnl. apply negb_true_iff.
     destruct (starts_with l (escape_prefixes y ++ NL :: 15 :: [NL])) eqn:E; [|reflexivity].
     rewrite (starts_with_before_nl l _ _ Hnl E) in H. discriminate.
+  - rewrite Ex. apply escaped_p_safe.
+  - rewrite Ex. destruct (starts_with SUBH (escape_prefixes y ++ [NL; 15; NL])) eqn:E; [|reflexivity]. exfalso.
+    apply (starts_with_before_nl SUBH _ _ (eq_refl : existsb (N.eqb NL) SUBH = false)) in E.
+    unfold escape_prefixes in E. destruct (needs_prefix_escape y) eqn:En; [discriminate E|].
+    unfold needs_prefix_escape in En. apply orb_false_elim in En as [_ En].
+    assert (Hs : existsb (fun p0 => starts_with p0 y) xsl_escape_starts = true).
+    { apply existsb_exists. exists SUBH. split; [apply mem_str_In; vm_compute; reflexivity|exact E]. }
+    rewrite Hs in En. discriminate.
+  - lia.
+Qed.
+
+
+(* ---------- the same without a heading: `KEYWORD num`, blank line, indented paragraph ---------- *)
+Lemma unparse_hier_nh tag e1 e2 n t : In tag hier_tags -> ws_only n = false -> ws_only t = false ->
+  unparse_doc (hier_x_nh tag [(EID, e1)] [(EID, e2)] n t)
+  = hier_keyword tag ++ SP :: escape_num n ++ [NL; NL] ++ [SP; SP] ++ text_out p_ctx t ++ [NL; NL].
+Proof.
+  intros Hin Hn Ht. unfold unparse_doc.
+  replace (2 + xdepth (hier_x_nh tag [(EID, e1)] [(EID, e2)] n t))%nat with 6%nat by reflexivity.
+  unfold hier_x_nh. change 6%nat with (S 5). rewrite (un_hier tag Hin). unfold hier_branch.
+  pose proof hier_tags_not_item as NI. rewrite forallb_forall in NI. specialize (NI tag Hin). apply negb_true_iff in NI. rewrite NI.
+  rewrite strip_elems by (repeat constructor).
+  set (kn := El (of_string "num") [] [Tx n]). set (kc := El (of_string "content") [] [El P_TAG [(EID, e2)] [Tx t]]).
+  replace (first_child "num" [kn; kc]) with (Some kn) by reflexivity.
+  replace (has_child "heading" [kn; kc]) with false by reflexivity.
+  replace (has_child "subheading" [kn; kc]) with false by reflexivity.
+  replace (has_child "from" [kn; kc]) with false by reflexivity.
+  replace (block_attrs tag [(EID, e1)]) with (@nil N) by reflexivity.
+  replace (filter (fun k : xml => is_named "heading" k || is_named "subheading" k || is_named "from" k) [kn; kc]) with (@nil xml) by reflexivity.
+  assert (Esv : string_value 5 kn = n).
+  { subst kn. change (string_value 5 (El (of_string "num") [] [Tx n])) with (concat (map (string_value 4) (strip_kids (of_string "num") [Tx n]))).
+    rewrite (strip_one _ n Hn). cbn [map concat string_value]. apply app_nil_r. }
+  rewrite Esv. cbn [sub_notes flat_map map concat].
+  subst kn kc. cbn [apply_sibs is_named].
+  repeat match goal with |- context [str_eqb ?a ?b] => let v := eval vm_compute in (str_eqb a b) in change (str_eqb a b) with v end.
+  cbn [orb negb]. cbv iota.
+  change (El (of_string "content") [] [El P_TAG [(EID, e2)] [Tx t]]) with (El CONTENT_T [] [El P_TAG [(EID, e2)] [Tx t]]).
+  change 5%nat with (S (S (S 2))). rewrite (un_content_p 2 _ 1 e2 t Ht).
+  cbn [indent_str app]. rewrite ?app_nil_r. try rewrite <- !app_assoc. cbn [app]. reflexivity.
+Qed.
+
+Theorem section_round_trip_nh uri prefix kw n t root_meta att_meta :
+  assoc_str uri meta_templates = Some (root_meta, att_meta) ->
+  In kw hier_keywords ->
+  num_ok n -> Forall (fun c => c <> TAB /\ c <> 13 /\ c <> 45) n -> py_isspace (last n 0) = false -> clean_num n <> [] -> valid_text n = true ->
+  line_text t ->
+  let tag := hier_name kw in
+  let cand := candidate prefix tag (clean_num n) in
+  let x := hier_x_nh tag [(EID, cand)] [(EID, cand ++ DUSCORE ++ P1)] n t in
+  convert uri (of_string "hier_element") prefix (unparse_doc x) = OkR x.
+Proof.
+  intros Hm Hkw Hn Hnc Hnl Hcn Hvn Ht tag cand x. subst x.
+  assert (Hin : In tag hier_tags) by (apply in_map; exact Hkw).
+  pose proof keyword_back as KB. rewrite forallb_forall in KB. specialize (KB kw Hkw). apply andb_prop in KB as [KB1 KB2].
+  apply mem_str_In in KB1. apply str_eqb_spec in KB2. fold tag in KB1, KB2.
+  set (kw' := hier_keyword tag) in *.
+  destruct Hn as [Hnok Hn0].
+  assert (Hwn : ws_only n = false).
+  { destruct n as [|c r]; [contradiction|]. inversion Hnok as [|? ? [[_ Hnl'] [H32 _]] _]; subst. inversion Hnc as [|? ? [Htab [H13 _]] _]; subst.
+    unfold ws_only. cbn [forallb]. unfold is_xml_ws.
+    destruct (N.eqb_spec c 32); [contradiction|]. destruct (N.eqb_spec c 9); [contradiction|].
+    destruct (N.eqb_spec c 10); [contradiction|]. destruct (N.eqb_spec c 13); [contradiction|]. reflexivity. }
+  assert (Hwt : ws_only t = false) by (apply ws_only_edge; apply Ht).
+  rewrite (unparse_hier_nh tag _ _ n t Hin Hwn Hwt). fold kw'.
+  rewrite escape_num_plain;
+    [|eapply Forall_impl; [|exact Hnc]; intros c (_ & _ & H); exact H|eapply Forall_impl; [|exact Hnok]; intros c (_ & _ & H); exact H].
+  destruct (units_text_out p_ctx t) as (ut & Ut). destruct (written_of_units p_ctx t ut (or_intror trimmed_p) Ht Ut) as (Wt & Dt & Et).
+  rewrite <- Et.
+  set (X := kw' ++ 32 :: n ++ NL :: repeat NL 1 ++ repeat SP 2 ++ encode ut ++ [NL]).
+  rewrite (convert_pre uri _ prefix _ X).
+  2:{ replace (kw' ++ SP :: n ++ [NL; NL] ++ [SP; SP] ++ encode ut ++ [NL; NL]) with ([] ++ X ++ [NL]).
+      - apply outer_whitespace_irrelevant; reflexivity.
+      - subst X. cbn [app repeat]. rewrite <- !app_assoc. cbn [app]. rewrite <- !app_assoc. cbn [app]. try rewrite <- !app_assoc. cbn [app]. try rewrite <- !app_assoc. cbn [app]. reflexivity. }
+  subst X.
+  set (y := escape_start_end (text_ctx_prefix p_ctx) (text_ctx_suffix p_ctx) (string_ltrim t)).
+  assert (Ex : encode ut = escape_prefixes y) by (rewrite Et; reflexivity).
+  assert (Hctl : no_ctl_start (encode ut) = true).
+  { destruct Wt as ((_ & _ & _ & Hune) & _). destruct ut as [|[c|c] r]; [contradiction| |reflexivity].
+    rewrite encode_cons_P. rewrite decode_cons in Dt. destruct t as [|t0 tr]; [discriminate|]. inversion Dt; subst t0 tr.
+    destruct Ht as (_ & _ & _ & Hval). unfold valid_text in Hval. cbn [forallb] in Hval. apply andb_prop in Hval. destruct Hval as [Hc _]. cbn [no_ctl_start].
+    destruct (N.eqb_spec c 14) as [->|]; [discriminate Hc|]. destruct (N.eqb_spec c 15) as [->|]; [discriminate Hc|]. reflexivity. }
+  assert (Hy : not_indent_start y = true).
+  { rewrite Ex in Hctl. unfold escape_prefixes in Hctl. destruct (needs_prefix_escape y) eqn:En.
+    - destruct (needs_escape_hd _ En) as (c0 & r & -> & Hu). cbn [not_indent_start].
+      destruct (c0 =? 14) eqn:E; [apply N.eqb_eq in E; subst; discriminate|reflexivity].
+    - destruct y as [|c0 r]; [reflexivity|]. cbn [no_ctl_start not_indent_start] in *. apply andb_prop in Hctl. apply Hctl. }
+  rewrite (hier_element_converts_nh uri prefix kw' n ut 2 1 root_meta att_meta Hm KB1 (conj Hnok Hn0)); try assumption.
+  - rewrite KB2, Dt. reflexivity.
+  - eapply Forall_impl; [|exact Hnc]. intros c (H & _). exact H.
+  - rewrite Ex. pose proof (escaped_none_starts y Hy) as H. pose proof block_lits_no_nl as Hnl'.
+    unfold none_starts in *. apply forallb_forall. intros l Hl.
+    rewrite forallb_forall in H, Hnl'. specialize (H l Hl). specialize (Hnl' l Hl).
+    apply negb_true_iff in H. apply negb_true_iff in Hnl'. apply negb_true_iff.
+    destruct (starts_with l (escape_prefixes y ++ NL :: 15 :: [NL])) eqn:E; [|reflexivity].
+    rewrite (starts_with_before_nl l _ _ Hnl' E) in H. discriminate.
   - rewrite Ex. apply escaped_p_safe.
   - rewrite Ex. destruct (starts_with SUBH (escape_prefixes y ++ [NL; 15; NL])) eqn:E; [|reflexivity]. exfalso.
     apply (starts_with_before_nl SUBH _ _ (eq_refl : existsb (N.eqb NL) SUBH = false)) in E.
